@@ -5,7 +5,7 @@ balance per substance).  Requests are generated constructively (pick the aliquot
 compute the target concentration and total from the resulting reference mixture)."""
 from __future__ import annotations
 
-from .common import shard, run_cases, BASE_ASSUMPTIONS, repo_suite, repo_suite_job
+from .common import under_display_configs, shard, run_cases, BASE_ASSUMPTIONS, repo_suite, repo_suite_job
 
 ID = 'C12'
 LEVEL = 'exploration'
@@ -36,6 +36,9 @@ def required_buckets(tier):
 
 def plan(tier, seed):
     jobs = _plan(tier, seed)
+    # a fraction of the budget under other documented configurations (display units / precisions, storage units with
+    # unequal prefixes)
+    jobs = jobs + under_display_configs(shard('constructive', 60, 2) if tier == 'quick' else shard('constructive', 2000, 8))
     if tier != 'quick' or False:
         jobs = jobs + repo_suite_job()
     return jobs
